@@ -88,7 +88,7 @@ def join(a, b):
                 for x in (a.items or ()) + (b.items or ()):
                     e = join(e, x)
                 return AV("list", a.alias | b.alias, elem=join(elem, e))
-        flags = (a.flags & b.flags) | ((a.flags | b.flags) & {"uncertain", "none", "shallow"})
+        flags = (a.flags & b.flags) | ((a.flags | b.flags) & {"uncertain", "none", "shallow", "unchecked-view"})
         if a.kind == "scalar":
             flags = a.flags & b.flags
         ref = a.ref if a.ref == b.ref else None
@@ -1112,6 +1112,9 @@ class _State:
         if summ.returns is None:
             return NONE
         out = self.subst(summ.returns, mapping) or UNKNOWN
+        if fn.name == "_view_rows" and out.kind == "frame":
+            # built by bypassing the checked constructor: must stay private
+            out = out.with_(flags=out.flags | {"unchecked-view"})
         if fn.name == "_new" and out.kind == "lod":
             # ListOfDicts._new is the only place that records the predecessor
             out = out.with_(flags=out.flags | {"via-new"},
